@@ -2,6 +2,7 @@ package ref
 
 import (
 	"math"
+	"sort"
 	"strconv"
 	"unicode/utf8"
 )
@@ -226,6 +227,62 @@ func init() {
 		},
 		"atom_chars/2": func(m *Machine, a []Term, _ *frame) bool { return atomText(m, a, false) },
 		"atom_codes/2": func(m *Machine, a []Term, _ *frame) bool { return atomText(m, a, true) },
+		"sort/2": func(m *Machine, a []Term, _ *frame) bool {
+			elems, tail := ListSlice(a[0])
+			if _, ok := Deref(tail).(*Var); ok {
+				InstErr()
+			}
+			if Deref(tail) != Term(Nil) {
+				TypeErr("list", a[0])
+			}
+			checkPartialList(a[1])
+			out, hinges := SortUnique(elems)
+			if hinges {
+				Unsupported("sort/2 result depends on the order of distinct unbound variables")
+			}
+			return m.unify(a[1], List(out...))
+		},
+		"keysort/2": func(m *Machine, a []Term, _ *frame) bool {
+			elems, tail := ListSlice(a[0])
+			if _, ok := Deref(tail).(*Var); ok {
+				InstErr()
+			}
+			if Deref(tail) != Term(Nil) {
+				TypeErr("list", a[0])
+			}
+			checkPartialList(a[1])
+			type kv struct{ k, p Term }
+			ps := make([]kv, len(elems))
+			for i, e := range elems {
+				switch c := Deref(e).(type) {
+				case *Var:
+					InstErr()
+				case *Cmp:
+					if c.F != "-" || len(c.Args) != 2 {
+						TypeErr("pair", e)
+					}
+					ps[i] = kv{c.Args[0], e}
+				default:
+					TypeErr("pair", e)
+				}
+			}
+			hinges := false
+			sort.SliceStable(ps, func(i, j int) bool {
+				c, h := Order(ps[i].k, ps[j].k)
+				if h {
+					hinges = true
+				}
+				return c < 0
+			})
+			if hinges {
+				Unsupported("keysort/2 result depends on the order of distinct unbound variables")
+			}
+			out := make([]Term, len(ps))
+			for i, p := range ps {
+				out[i] = p.p
+			}
+			return m.unify(a[1], List(out...))
+		},
 		"./2": func(m *Machine, a []Term, _ *frame) bool {
 			Unsupported("a list as a goal (consult shorthand)")
 			return false
